@@ -5259,8 +5259,9 @@ static int32_t getImplicitBitString(psPool_t *pool, const unsigned char **pp,
     }
 
     p++;
-    if (getAsnLength(&p, len, bitLen) < 0
-        || *bitLen < 2)
+    if (getAsnLength(&p, len - 1, bitLen) < 0
+        || *bitLen < 2
+        || (uint32) ((*pp + len) - p) < *bitLen)
     {
         psTraceCrypto("Malformed implicitBitString\n");
         return PS_PARSE_FAIL;
